@@ -86,6 +86,7 @@ type frame struct {
 	sites  []token.Pos // call-site positions of the inlining stack
 	active []*loopInfo
 	info   *fnInfo
+	tsub   map[*types.TypeParam]types.Type // type arguments of the instantiation this frame was entered through
 }
 
 func (fr *frame) fork() *frame {
@@ -1947,20 +1948,35 @@ func (ip *Interp) call(fr *frame, in ssa.CallInstruction, st *State) []Outcome {
 	if v, ok := in.(ssa.Value); ok {
 		resT = v.Type()
 	}
+	var invoked *ssa.Function
 	if com.IsInvoke() {
-		ip.undecided(st, fr, pos, "dynamic interface method call "+com.Method.Name())
-		return ret(UnknownV{Why: "invoke", Typ: resT})
+		// a method called on a value whose type is a type parameter: static once the type argument is known
+		// (the frame carries the type arguments of the instantiation it was entered through)
+		if tp, isTP := com.Value.Type().(*types.TypeParam); isTP && fr.tsub[tp] != nil {
+			invoked = ip.methodOf(fr.tsub[tp], com.Method)
+		}
+		if invoked == nil {
+			ip.undecided(st, fr, pos, "dynamic interface method call "+com.Method.Name())
+			return ret(UnknownV{Why: "invoke", Typ: resT})
+		}
 	}
-	args := make([]Val, len(com.Args))
-	for i, a := range com.Args {
-		args[i] = ip.value(fr, a, st)
+	args := make([]Val, 0, len(com.Args)+1)
+	if invoked != nil {
+		args = append(args, ip.value(fr, com.Value, st))
 	}
-	if b, ok := com.Value.(*ssa.Builtin); ok {
+	for _, a := range com.Args {
+		args = append(args, ip.value(fr, a, st))
+	}
+	if b, ok := com.Value.(*ssa.Builtin); ok && invoked == nil {
 		return ret(ip.builtin(fr, b, com, args, resT, st, pos))
 	}
-	callee := com.StaticCallee()
-	var bind []Val
+	callee := invoked
 	if callee == nil {
+		callee = com.StaticCallee()
+	}
+	var bind []Val
+	if invoked != nil {
+	} else if callee == nil {
 		switch f := ip.value(fr, com.Value, st).(type) {
 		case ClosureV:
 			callee, bind = f.Fn, f.Bind
@@ -1992,6 +2008,7 @@ func (ip *Interp) call(fr *frame, in ssa.CallInstruction, st *State) []Outcome {
 	nf := &frame{fn: callee, env: map[ssa.Value]Val{}, depth: fr.depth + 1, info: ip.info(callee),
 		stack: append(append([]*ssa.Function{}, fr.stack...), callee),
 		sites: append(append([]token.Pos{}, fr.sites...), pos)}
+	nf.tsub = typeArgsOf(callee, fr.tsub)
 	for i, p := range callee.Params {
 		if i < len(args) {
 			nf.env[p] = args[i]
@@ -2803,4 +2820,54 @@ func addressStaysLocal(v ssa.Value, depth int) bool {
 		}
 	}
 	return true
+}
+
+// typeArgsOf maps the type parameters of a generic function to the type arguments it is called with: from the
+// instance's own type arguments, or inherited when an instantiation wrapper calls its generic origin.
+func typeArgsOf(callee *ssa.Function, outer map[*types.TypeParam]types.Type) map[*types.TypeParam]types.Type {
+	if callee == nil {
+		return nil
+	}
+	out := map[*types.TypeParam]types.Type{}
+	for k, v := range outer {
+		out[k] = v
+	}
+	if o := callee.Origin(); o != nil && len(callee.TypeArgs()) > 0 {
+		tps := o.TypeParams()
+		for i := 0; tps != nil && i < tps.Len() && i < len(callee.TypeArgs()); i++ {
+			ta := callee.TypeArgs()[i]
+			if tp, ok := ta.(*types.TypeParam); ok && outer[tp] != nil {
+				ta = outer[tp]
+			}
+			out[tps.At(i)] = ta
+		}
+	}
+	if len(out) == 0 {
+		return nil
+	}
+	return out
+}
+
+// methodOf finds the package function that implements the method for the given (possibly generic) named type.
+func (ip *Interp) methodOf(t types.Type, m *types.Func) *ssa.Function {
+	for _, tt := range []types.Type{t, types.NewPointer(t)} {
+		sel := types.NewMethodSet(tt).Lookup(m.Pkg(), m.Name())
+		if sel == nil {
+			continue
+		}
+		if _, isPtrRecv := sel.Recv().(*types.Pointer); isPtrRecv && tt == t {
+			continue
+		}
+		f, ok := sel.Obj().(*types.Func)
+		if !ok {
+			continue
+		}
+		if tt != t {
+			continue // a pointer-receiver method needs the address of the value: not modelled
+		}
+		if fn := ip.prog.FuncValue(f.Origin()); fn != nil && len(fn.Blocks) > 0 && ip.inPackage(fn) {
+			return fn
+		}
+	}
+	return nil
 }
